@@ -409,6 +409,12 @@ func (a *genWalker) pieces(e ast.Expr) ([]genPiece, bool) {
 		if d := a.fieldClass(x); d != nil {
 			return []genPiece{{dyn: d}}, true
 		}
+	case *ast.SliceExpr:
+		// a prefix/suffix of a repeated one-byte constant (`indent[:n]` of strings.Repeat("\t", k)) is again zero or
+		// more copies of that byte
+		if ps, ok := a.pieces(x.X); ok && len(ps) == 1 && ps[0].dyn != nil && len(ps[0].dyn.repeat) == 1 {
+			return ps, true
+		}
 	case *ast.Ident:
 		obj := a.info.Uses[x]
 		orig := false
